@@ -540,15 +540,15 @@ def leg_e2e(ck, b, texts, stats, corpus=()):
     short = [t for t in valid if len(t) <= (2 if ck.quick else 3)]
     longer = [t for t in valid if len(t) > (2 if ck.quick else 3)]
     rng.shuffle(longer)
-    pick = [t for t in corpus if complete_body(t, '"') and spec_denote(t, '"') is not None] + short + longer[:(250 if ck.quick else 4000)]
-    for _ in range(150 if ck.quick else 2000):
+    pick = [t for t in corpus if complete_body(t, '"') and spec_denote(t, '"') is not None] + short + longer[:(250 if ck.quick else 2000)]
+    for _ in range(150 if ck.quick else 1000):
         s = "".join(rng.choice(ALPHA + ["€", "Z", " ", "\t", "\r"]) for _ in range(rng.randint(3, 12)))
         pick.append(spec_escape(s, '"'))
     for t in pick:
         d = spec_denote(t, '"')
         items.append(("text", 'Schreibe den Text "%s".' % t, d.encode(), '"%s"' % t))
     chars = [c for c in ALPHA if c not in ("'", "\\")] + [chr(x) for x in (0x20AC, 0x5A, 0x20, 9, 0x7F, 0x7FF, 0x800, 0xFFFF, 0x10000, 0x10FFFF, 0xD7FF, 0xE000, 1, 0x22)]
-    chars += [chr(rng.choice([rng.randint(1, 0x7f), rng.randint(0x80, 0x7ff), rng.randint(0x800, 0xd7ff), rng.randint(0xe000, 0xffff), rng.randint(0x10000, 0x10ffff)])) for _ in range(60 if ck.quick else 1500)]
+    chars += [chr(rng.choice([rng.randint(1, 0x7f), rng.randint(0x80, 0x7ff), rng.randint(0x800, 0xd7ff), rng.randint(0xe000, 0xffff), rng.randint(0x10000, 0x10ffff)])) for _ in range(60 if ck.quick else 800)]
     for c in chars:
         if c in ("'", "\\"):
             continue
@@ -557,14 +557,14 @@ def leg_e2e(ck, b, texts, stats, corpus=()):
         items.append(("char", "Schreibe den Buchstaben '\\%s'." % e, esc_val(e, "'").encode(), "'\\%s'" % e))
     ints = [s for s in int_cases(ck) if int(s) < 2**63]
     rng.shuffle(ints)
-    ints = ["0", "9223372036854775807", "09223372036854775807", "9223372036854775806", "4294967296", "007"] + ints[:(80 if ck.quick else 2000)]
+    ints = ["0", "9223372036854775807", "09223372036854775807", "9223372036854775806", "4294967296", "007"] + ints[:(80 if ck.quick else 1000)]
     for s in ints:
         items.append(("int", "Schreibe die Zahl %s." % s, str(int(s)).encode(), s))
     items.append(("int", "Schreibe die Zahl -9223372036854775807.", b"-9223372036854775807", "-9223372036854775807"))
     ex, rnd, hard = float_cases(ck)
     hs = [s for s in hard if len(s) < 400]
     rng.shuffle(hs)
-    fl = hs[:(120 if ck.quick else 3000)] + rnd[:(100 if ck.quick else 3000)] + [ex[i] for i in range(0, len(ex), 9973 if ck.quick else 211)]
+    fl = hs[:(120 if ck.quick else 1500)] + rnd[:(100 if ck.quick else 1500)] + [ex[i] for i in range(0, len(ex), 9973 if ck.quick else 499)]
     for s in fl:
         w = py_float(s)
         if w is None:
